@@ -220,83 +220,70 @@ def run(ctx):
     ctx.ob(R5, mr.qual, "method allow-list is consulted case-insensitively (upper-cased) and only when configured",
            "method.upper() not in self.allowed_methods" in txt and "self.allowed_methods and" in txt)
 
-    # ------------------------------------------------------------------ increment: R6, R9, R10
-    R6 = ctx.rule("C04-R6", "retries=False re-raises the original error at once: total is False and error => raise before any counter is touched", "E5 on increment")
-    R9 = ctx.rule("C04-R9", "every branch of increment spends budget: the total handed to new() is the decremented one whenever it is not None; in the connect/read/other/redirect/status branch the matching counter is decremented whenever it is not None; the new object is the one tested for exhaustion and returned", "E4 provenance")
-    R10 = ctx.rule("C04-R10", "method gate: a read error with read=False, an unknown method or a method outside allowed_methods is re-raised, never retried", "E5 on increment")
+    # ------------------------------------------------------------------ increment: R6, R9, R10 (effect rows)
+    R6 = ctx.rule("C04-R6", "retries=False re-raises the original error at once: total is False and error => raise before any counter is touched", "E10 effect rows of increment")
+    R9 = ctx.rule("C04-R9", "every branch of increment spends budget: the total handed to new() is the decremented one whenever it is not None; in the connect/read/other/redirect/status branch the matching counter is decremented whenever it is not None; the new object is the one tested for exhaustion and returned", "E10 effect rows (decrement = the term <field> - 1)")
+    R10 = ctx.rule("C04-R10", "method gate: a read error with read=False, an unknown method or a method outside allowed_methods is re-raised, never retried", "E10 effect rows of increment")
     inc = m.method(RETRY, "increment")
+    from ..rows import GenRule, effect_rows
+    from ..terms import K, T, destruct, norm, subterms
 
-    class IncRule(BaseRule):
-        def __init__(self):
-            self.news = []
-
-        def call(self, it, st, node, recv, pos, kw):
+    class IncRule(GenRule):
+        def call_hook(self, it, st, node, recv, pos, kw):
             t = ast.unparse(node.func)
             if t == "reraise":
                 s = st.copy()
                 s.ts["reraised"] = True
                 s.log(node, "RERAISE original error")
                 return [Out("raise", s, AV("exc", "<original-error>", truth=True, none=False))]
-            if t == "self._is_connection_error":
-                return [Out("normal", st, AV("unk", sym="is_conn_err"))]
-            if t == "self._is_read_error":
-                return [Out("normal", st, AV("unk", sym="is_read_err"))]
-            if t == "self._is_method_retryable":
-                return [Out("normal", st, AV("unk", sym="retryable"))]
-            if t == "response.get_redirect_location":
-                return [Out("normal", st, AV("unk", sym="location"))]
-            if t == "self.new":
-                s = st.copy()
-                self.news.append((dict(kw), s))
-                s.ts["newed"] = True
-                return [Out("normal", s, AV("obj", "new_retry", truth=True, none=False, typ=RETRY))]
-            if t.endswith(".is_exhausted"):
-                s = st.copy()
-                s.ts["exhaust_tested"] = recv.val if recv is not None and recv.kind == "obj" else "?"
-                return [Out("normal", s, AV("unk", sym="exhausted"))]
-            if t in ("type", "RequestHistory", "ResponseError", "log.debug", "ResponseError.SPECIFIC_ERROR.format"):
+            if t in ("RequestHistory", "type") or t.startswith("ResponseError"):
                 return [Out("normal", st, AV("unk", none=False, truth=True))]
-            q = it.resolve_callee(node, recv)
-            if q and it.m.is_exception_class(q):
-                return [Out("normal", st, AV("exc", it.m.norm(q), truth=True, none=False))]
-            return None
-
-        def augassign(self, it, st, stmt, v):
-            if isinstance(stmt.op, ast.Sub) and isinstance(stmt.target, ast.Name):
-                cur = st.env.get(it.var(stmt.target.id), UNK)
-                amount = v.val if v.kind == "const" else None
-                return AV("unk", sym=cur.sym, tags=frozenset(cur.tags | {f"dec:{amount}"}), truth=None, none=False)
-            return None
+            return super().call_hook(it, st, node, recv, pos, kw)
 
     fields = ("total", "connect", "read", "redirect", "status", "other")
-    seeds = {("self", f): AV("unk", sym=f"f:{f}", tags=frozenset({f"field:{f}"})) for f in fields}
-    seeds[("self", "history")] = AV("unk", none=False)
-    rule = IncRule()
-    outs, it = run_function(m, inc, rule, RETRY, seeds=seeds, record_decisions=True,
-                            params={"error": AV("unk", sym="p:error"), "response": AV("unk", sym="p:response"), "method": AV("unk", sym="p:method")})
-    ctx.states += it.budget.steps
-    ctx.sites(R9, len(rule.news), 5, "paths reaching self.new(...)")
+    rule = IncRule(ctx, inc.module, pure_self=("_is_connection_error", "_is_read_error", "_is_method_retryable", "new"))
+    rows = effect_rows(ctx, inc, rule, RETRY, budget=900000)
+    PE, PR, PM_ = "p:error", "p:response", "p:method"
+    CONN, READ, RETRYABLE, LOC = T("self._is_connection_error", PE), T("self._is_read_error", PE), T("self._is_method_retryable", PM_), T(f"{PR}.get_redirect_location")
+
+    def new_call(r):
+        """kwargs (name -> term) of the self.new(...) term this row builds, and the term itself"""
+        cands = set()
+        for t_ in [r.ret or ""] + [k for k in r.st.facts]:
+            for x in subterms(t_):
+                if destruct(x)[0] == "self.new":
+                    cands.add(x)
+        for k_ in r.st.facts:
+            if k_.startswith("self.new(") and k_.endswith(").is_exhausted()"):
+                cands.add(k_[:-len(".is_exhausted()")])
+        if not cands:
+            return None, None
+        t_ = sorted(cands, key=len)[0]
+        kw = {}
+        for a_ in destruct(t_)[1]:
+            k_, _, v_ = a_.partition("=")
+            kw[k_] = v_
+        return kw, t_
+
     # R6
     n6 = 0
-    for o in outs:
-        dec = dict(o.st.ts.get("dec", ()))
-        is_false = o.st.ts.get(("cmp", "f:total", "is", "False"))
-        err = o.st.facts.get("p:error", (None, None))[0]
-        if is_false is True and err is True:
+    for r in rows:
+        if r.cmp("self.total", "is", "False") is True and r.truth(PE) is True:
             n6 += 1
-            ok = o.kind == "raise" and o.st.ts.get("reraised") and not o.st.ts.get("newed")
-            ctx.ob(R6, inc.qual, f"total is False and error -> {outcome_name(o)}", bool(ok),
-                   "" if ok else "with retries disabled the error is not re-raised immediately", witness=o.st.witness(), node=inc.node)
+            kw, nt = new_call(r)
+            ok = r.out == "raise:<original-error>" and nt is None
+            ctx.ob(R6, inc.qual, f"total is False and error -> {r.out}", bool(ok),
+                   "" if ok else "with retries disabled the error is not re-raised immediately", witness=r.witness(), node=inc.node)
     ctx.sites(R6, n6, 1, "rows with total is False and an error")
     # R9
-    branch_counter = {"connect": "connect", "read": "read", "other": "other", "redirect": "redirect", "status": "status"}
     seen = set()
-    for kw, s in rule.news:
-        conn_e = s.facts.get("is_conn_err", (None, None))[0]
-        read_e = s.facts.get("is_read_err", (None, None))[0]
-        err = s.facts.get("p:error", (None, None))[0]
-        loc = s.facts.get("location", (None, None))[0]
-        resp = s.facts.get("p:response", (None, None))[0]
+    n9 = 0
+    for r in rows:
+        kw, nt = new_call(r)
+        if nt is None:
+            continue
+        n9 += 1
+        err, conn_e, read_e, loc, resp = r.truth(PE), r.truth(CONN), r.truth(READ), r.truth(LOC), r.truth(PR)
         if err and conn_e:
             br = "connect"
         elif err and read_e:
@@ -309,87 +296,85 @@ def run(ctx):
             br = "status"
 
         def spent(name):
-            av = kw.get(name)
-            if av is None:
+            v = kw.get(name)
+            if v is None:
                 return None
-            av = s.view(av)
-            fld = f"f:{'status' if name == 'status' else name}"
-            is_none = s.facts.get(fld, (None, None))[1]
-            if any(t == "dec:1" for t in av.tags):
+            fld = f"self.{name}"
+            if v in (T("sub", fld, "1"), T("add", fld, "-1")):
                 return True
-            if is_none is True or (av.kind == "const" and av.val is None):
+            if r.is_none(fld) is True or v == "None":
                 return "none"
             return False
 
+        has_status = bool(resp) and r.truth(f"{PR}.status") is True
         t_sp = spent("total")
-        decs = dict(s.ts.get("dec", ()))
-        has_status = bool(s.facts.get("p:response", (None, None))[0]) and decs.get("response.status") is True
         key = (br, str(t_sp), str(spent(br)), has_status)
         if key in seen:
             continue
         seen.add(key)
         ctx.ob(R9, inc.qual, f"branch {br}: total handed to new() is decremented (or None)", t_sp in (True, "none"),
-               "" if t_sp in (True, "none") else "this branch does not spend the total budget: the retry loop is unbounded for it", witness=s.witness(), node=inc.node)
+               "" if t_sp in (True, "none") else f"total={kw.get('total')}: this branch does not spend the total budget: the retry loop is unbounded for it", witness=r.witness(), node=inc.node)
         b_sp = spent(br)
-        if br == "status":
-            # the status counter is only spent when there is a response with a status
-            if not has_status:
-                b_sp = b_sp if b_sp is not False else "n/a"
+        if br == "status" and not has_status and b_sp is False:
+            b_sp = "n/a"  # the status counter is only spent when there is a response with a status
         ctx.ob(R9, inc.qual, f"branch {br}: its own counter handed to new() is decremented (or None)", b_sp in (True, "none", "n/a"),
-               "" if b_sp in (True, "none", "n/a") else f"the `{br}` budget is never spent in its own branch", witness=s.witness(), node=inc.node)
+               "" if b_sp in (True, "none", "n/a") else f"{br}={kw.get(br)}: the `{br}` budget is never spent in its own branch", witness=r.witness(), node=inc.node)
         for other in fields:
             if other in ("total", br):
                 continue
-            av = kw.get(other)
-            if av is not None and any(t.startswith("dec:") for t in av.tags):
-                ctx.ob(R9, inc.qual, f"branch {br}: counter `{other}` untouched", False, f"branch {br} spends the `{other}` budget", witness=s.witness(), node=inc.node)
+            v = kw.get(other)
+            if v is not None and v not in (f"self.{other}", "None") and f"self.{other}" in v:
+                ctx.ob(R9, inc.qual, f"branch {br}: counter `{other}` untouched", False, f"branch {br} changes the `{other}` budget ({v})", witness=r.witness(), node=inc.node)
         missing = [f for f in fields if f not in kw]
         ctx.ob(R9, inc.qual, f"branch {br}: all six counters are handed to new()", not missing, f"missing {missing}")
-    for o in outs:
-        if o.kind == "return":
-            v = o.st.view(o.val)
-            ok = v.kind == "obj" and v.val == "new_retry" and o.st.ts.get("exhaust_tested") == "new_retry" and o.st.facts.get("exhausted", (None, None))[0] is False
-            ctx.ob(R9, inc.qual, "returns the new policy, after it was tested and found not exhausted", ok,
-                   "" if ok else "the object returned is not the freshly built one, or exhaustion is not tested on it", witness=o.st.witness(), node=inc.node)
-            break
-    exh = [o for o in outs if o.kind == "raise" and o.val.val == "urllib3.exceptions.MaxRetryError"]
-    ctx.ob(R9, inc.qual, "exhaustion raises MaxRetryError", bool(exh) and all(o.st.facts.get("exhausted", (None, None))[0] is True for o in exh))
+    ctx.sites(R9, n9, 5, "rows reaching self.new(...)")
+    n_ret = 0
+    for r in rows:
+        kw, nt = new_call(r)
+        if r.returns and nt is not None:
+            n_ret += 1
+            ex = r.truth(T(f"{nt}.is_exhausted"))
+            ok = r.ret == nt and ex is False
+            if not ok or n_ret == 1:
+                ctx.ob(R9, inc.qual, "returns the new policy, after it was tested and found not exhausted", ok,
+                       "" if ok else "the object returned is not the freshly built one, or exhaustion is not tested on it", witness=r.witness(), node=inc.node)
+    exh = [r for r in rows if r.out == "raise:MaxRetryError"]
+    ok = bool(exh) and all((lambda kw_nt: kw_nt[1] is not None and r.truth(T(f"{kw_nt[1]}.is_exhausted")) is True)(new_call(r)) for r in exh)
+    ctx.ob(R9, inc.qual, "exhaustion raises MaxRetryError", ok)
     # R10
     n10 = 0
-    for o in outs:
-        err = o.st.facts.get("p:error", (None, None))[0]
-        conn_e = o.st.facts.get("is_conn_err", (None, None))[0]
-        read_e = o.st.facts.get("is_read_err", (None, None))[0]
+    for r in rows:
+        err, conn_e, read_e = r.truth(PE), r.truth(CONN), r.truth(READ)
         if not (err and conn_e is False and read_e):
             continue
-        read_false = o.st.ts.get(("cmp", "f:read", "is", "False"))
-        m_none = o.st.facts.get("p:method", (None, None))[1]
-        retryable = o.st.facts.get("retryable", (None, None))[0]
+        read_false = r.cmp("self.read", "is", "False")
+        m_none = r.is_none(PM_)
+        retryable = r.truth(RETRYABLE)
         gate = read_false is True or m_none is True or retryable is False
         if gate:
             n10 += 1
-            ok = o.kind == "raise" and o.st.ts.get("reraised")
-            ctx.ob(R10, inc.qual, f"read error with read-is-False={read_false} method-None={m_none} retryable={retryable} -> {outcome_name(o)}", bool(ok),
-                   "" if ok else "a request whose method must not be re-sent after it may have reached the server is retried", witness=o.st.witness(), node=inc.node)
+            ok = r.out == "raise:<original-error>"
+            ctx.ob(R10, inc.qual, f"read error with read-is-False={read_false} method-None={m_none} retryable={retryable} -> {r.out}", bool(ok),
+                   "" if ok else "a request whose method must not be re-sent after it may have reached the server is retried", witness=r.witness(), node=inc.node)
     ctx.sites(R10, n10, 3, "gated read-error rows")
-    # ... and conversely: a read error is only retried on paths that established all three conditions
     seen10 = set()
-    for kw, s in rule.news:
-        err = s.facts.get("p:error", (None, None))[0]
-        conn_e = s.facts.get("is_conn_err", (None, None))[0]
-        read_e = s.facts.get("is_read_err", (None, None))[0]
+    for r in rows:
+        kw, nt = new_call(r)
+        if nt is None:
+            continue
+        err, conn_e, read_e = r.truth(PE), r.truth(CONN), r.truth(READ)
         if not (err and conn_e is False and read_e):
             continue
-        read_false = s.ts.get(("cmp", "f:read", "is", "False"))
-        m_none = s.facts.get("p:method", (None, None))[1]
-        retryable = s.facts.get("retryable", (None, None))[0]
+        read_false = r.cmp("self.read", "is", "False")
+        m_none = r.is_none(PM_)
+        retryable = r.truth(RETRYABLE)
         key = (read_false, m_none, retryable)
         if key in seen10:
             continue
         seen10.add(key)
         ok = read_false is False and m_none is False and retryable is True
         ctx.ob(R10, inc.qual, f"read error retried only with read-is-False={read_false} method-None={m_none} retryable={retryable}", ok,
-               "" if ok else "a read error is retried on a path that never established that the method may be re-sent", witness=s.witness(), node=inc.node)
+               "" if ok else "a read error is retried on a path that never established that the method may be re-sent", witness=r.witness(), node=inc.node)
     ctx.sites(R10, len(seen10), 1, "retried read-error rows")
 
     # ------------------------------------------------------------------ R7 classification table
